@@ -13,6 +13,7 @@ func main() {
 	commands["conn"] = cmdConn
 	commands["service"] = cmdService
 	commands["race"] = cmdRace
+	commands["ctxio"] = cmdCtxio
 	if len(os.Args) < 2 {
 		fmt.Fprintln(os.Stderr, "usage: vdriver <command> [flags]")
 		os.Exit(2)
